@@ -30,6 +30,8 @@ DECLS = {
     'n': dict(x=(-4, -1), y=(-1, 1)),
     'g88': dict(x=(0, 7), y=(0, 7)),
     'm': dict(x=(0, 3), y=(-2, 1), z=(0, 1)),
+    # hints with a positive lower bound (bit ranges 0..7 and 0..3 reach below the hints)
+    'p': dict(x=(2, 5), y=(1, 3)),
     # lattices of isolated points with a slice variable that only the care set mentions
     'L': dict(x=(0, 4), y=(0, 2), z=(0, 1)),
     'Ln': dict(x=(-5, -1), y=(-3, -1), z=(0, 1)),
@@ -269,9 +271,9 @@ def instances_for(tier, seed):
     for d in ('L', 'Ln'):
         insts += [instance('slices', d, seed * 48 + i) for i in range(nsl)]
     nb = 40 if tier == 'quick' else 600
-    for d in ('g44', 'g333', 's', 'n', 'm', 'g88'):
+    for d in ('g44', 'g333', 's', 'n', 'm', 'g88', 'p'):
         insts += [instance('boxes', d, seed * 1000 + i) for i in range(nb)]
-        if d in ('g44', 's', 'n'):
+        if d in ('g44', 's', 'n', 'p'):
             for _ in range(nb):
                 bits = 16
                 m = rnd.getrandbits(bits)
